@@ -910,6 +910,19 @@ func ruleFloatWidth(r *Run, p *Prog) {
 				if spread != nil {
 					str, isS := constString(pa.ResolveAt(spread, bi)) // a literal chosen by an earlier switch
 					if !isS {
+						// or read from a package-level table of literals by a class index that is a
+						// constant on this path (`float32Special[class]`)
+						if ld, ok := spread.(*ssa.UnOp); ok && ld.Op == token.MUL {
+							if ia, ok := ld.X.(*ssa.IndexAddr); ok {
+								if g, ok := ia.X.(*ssa.Global); ok {
+									if k, ok := e.eval(pa.ResolveAt(ia.Index, bi), 0); ok {
+										str, isS = globalStringAt(p, g, k)
+									}
+								}
+							}
+						}
+					}
+					if !isS {
 						bad = "appends " + descr(spread)
 						return
 					}
@@ -977,4 +990,59 @@ func ruleFloatWidth(r *Run, p *Prog) {
 		okc := okAll && nRet > 0
 		r.Ob("WIDTH", FnName(f)+"/float-width", p.Pos(f.Pos()), okc, true, tern(okc, fmt.Sprintf("every path writes head byte 0x%02x and %d bytes in all", w.head, w.n), fmt.Sprintf("%s does not write the %d-byte form of its own Go type on every path (%s): the decoder prints the digits of the other width, which differ from what the JSON build emits for the same call", w.name, w.n, why)))
 	}
+}
+
+// globalStringAt: the constant string the package initialiser stores into element k of the
+// package-level array g (and nothing else stores into g).
+func globalStringAt(p *Prog, g *ssa.Global, k int64) (string, bool) {
+	if g.Pkg == nil {
+		return "", false
+	}
+	var fns []*ssa.Function
+	if pi := g.Pkg.Func("init"); pi != nil {
+		fns = append(fns, pi)
+	}
+	for _, f := range p.ModFns {
+		if f.Pkg == g.Pkg {
+			fns = append(fns, f)
+		}
+	}
+	val, found, bad := "", false, false
+	for _, f := range fns {
+		isInit := f.Parent() == nil && (f.Name() == "init" || strings.HasPrefix(f.Name(), "init#"))
+		var lit *ssa.Alloc
+		eachInstr(f, func(b *ssa.BasicBlock, i int, in ssa.Instruction) {
+			if st, ok := in.(*ssa.Store); ok && st.Addr == ssa.Value(g) {
+				if !isInit {
+					bad = true
+				}
+				if ld, ok := st.Val.(*ssa.UnOp); ok && ld.Op == token.MUL {
+					lit, _ = ld.X.(*ssa.Alloc)
+				}
+			}
+		})
+		eachInstr(f, func(b *ssa.BasicBlock, i int, in ssa.Instruction) {
+			st, ok := in.(*ssa.Store)
+			if !ok {
+				return
+			}
+			ia, ok := st.Addr.(*ssa.IndexAddr)
+			if !ok || !(ia.X == ssa.Value(g) || (lit != nil && ia.X == ssa.Value(lit))) {
+				return
+			}
+			if !isInit {
+				bad = true
+				return
+			}
+			idx, okI := constInt(ia.Index)
+			str, okS := constString(st.Val)
+			if okI && idx == k {
+				if !okS || found {
+					bad = true
+				}
+				val, found = str, true
+			}
+		})
+	}
+	return val, found && !bad
 }
